@@ -340,4 +340,237 @@ theorem specProc_impl_eq_spec (h : List (Nat × XOp)) (q : Nat) : specProc implC
     | fork => simp only [specProc, ih, forkFrom_impl_eq_spec']
 
 
+/-! ### the table as a LIST: sorted by pid, hence determined by its entries -/
+
+/-- `BTreeMap` order: strictly increasing pids -/
+def ProcTable.Sorted (t : ProcTable) : Prop := t.Pairwise (fun a b => a.1 < b.1)
+
+theorem ProcTable.get_none_of_lt (t : ProcTable) (q : Nat) (h : ∀ e ∈ t, q < e.1) : t.get q = none := by
+  induction t with
+  | nil => rfl
+  | cons hd tl ih =>
+    obtain ⟨k, v⟩ := hd
+    have hk : q < k := h (k, v) (by simp)
+    have : ¬ q = k := by omega
+    simp only [ProcTable.get, this, if_false]
+    exact ih (fun e he => h e (by simp [he]))
+
+theorem ProcTable.put_mem (t : ProcTable) (k : Nat) (v : Proc) (e : Nat × Proc) (he : e ∈ t.put k v) :
+    e = (k, v) ∨ e ∈ t := by
+  induction t with
+  | nil => simp [ProcTable.put] at he; exact .inl he
+  | cons hd tl ih =>
+    obtain ⟨k', v'⟩ := hd
+    unfold ProcTable.put at he
+    by_cases h1 : k = k'
+    · simp only [h1, if_true, List.mem_cons] at he
+      rcases he with he | he
+      · exact .inl (by rw [he, h1])
+      · exact .inr (by simp [he])
+    · by_cases h2 : k < k'
+      · simp only [h1, h2, if_false, if_true, List.mem_cons] at he
+        rcases he with he | he | he
+        · exact .inl he
+        · exact .inr (by simp [he])
+        · exact .inr (by simp [he])
+      · simp only [h1, h2, if_false, List.mem_cons] at he
+        rcases he with he | he
+        · exact .inr (by simp [he])
+        · rcases ih he with h | h
+          · exact .inl h
+          · exact .inr (by simp [h])
+
+theorem ProcTable.put_sorted (t : ProcTable) (k : Nat) (v : Proc) (h : t.Sorted) : (t.put k v).Sorted := by
+  induction t with
+  | nil => simp [ProcTable.put, ProcTable.Sorted]
+  | cons hd tl ih =>
+    obtain ⟨k', v'⟩ := hd
+    unfold ProcTable.Sorted at h ih ⊢
+    rw [List.pairwise_cons] at h
+    unfold ProcTable.put
+    by_cases h1 : k = k'
+    · subst h1
+      simp only [if_true]
+      exact List.pairwise_cons.mpr ⟨h.1, h.2⟩
+    · by_cases h2 : k < k'
+      · simp only [h1, h2, if_false, if_true]
+        refine List.pairwise_cons.mpr ⟨?_, List.pairwise_cons.mpr h⟩
+        intro e he
+        simp only [List.mem_cons] at he
+        rcases he with he | he
+        · rw [he]; exact h2
+        · have := h.1 e he; simp only at this ⊢; omega
+      · simp only [h1, h2, if_false]
+        refine List.pairwise_cons.mpr ⟨?_, ih h.2⟩
+        intro e he
+        rcases ProcTable.put_mem tl k v e he with he | he
+        · rw [he]; simp only; omega
+        · exact h.1 e he
+
+theorem run_sorted (copied : List (String × String)) (sched : List (Nat × XOp)) :
+    ∀ s : SysState, s.processes.Sorted → (s.run copied sched).processes.Sorted := by
+  induction sched with
+  | nil => intro s h; exact h
+  | cons x rest ih =>
+    intro s h
+    refine ih _ ?_
+    obtain ⟨p, op⟩ := x
+    cases op with
+    | call c =>
+      show (s.exec p c).2.processes.Sorted
+      unfold SysState.exec
+      cases s.processes.get p with
+      | none => exact h
+      | some v => exact ProcTable.put_sorted _ _ _ h
+    | fork =>
+      show (s.fork copied p).2.processes.Sorted
+      unfold SysState.fork
+      cases s.processes.get p with
+      | none => exact h
+      | some v => exact ProcTable.put_sorted _ _ _ h
+
+/-- two tables sorted by pid with the same entries are the same list -/
+theorem ProcTable.ext_sorted : ∀ (a b : ProcTable), a.Sorted → b.Sorted → (∀ q, a.get q = b.get q) → a = b := by
+  intro a
+  induction a with
+  | nil =>
+    intro b _ _ h
+    cases b with
+    | nil => rfl
+    | cons hd tl =>
+      obtain ⟨k, v⟩ := hd
+      have := h k
+      simp [ProcTable.get] at this
+  | cons hd tl ih =>
+    obtain ⟨k1, v1⟩ := hd
+    intro b ha hb h
+    cases b with
+    | nil =>
+      have := h k1
+      simp [ProcTable.get] at this
+    | cons hd2 tl2 =>
+      obtain ⟨k2, v2⟩ := hd2
+      unfold ProcTable.Sorted at ha hb
+      rw [List.pairwise_cons] at ha hb
+      have n1 : ProcTable.get tl k1 = none := ProcTable.get_none_of_lt tl k1 (fun e he => ha.1 e he)
+      have n2 : ProcTable.get tl2 k2 = none := ProcTable.get_none_of_lt tl2 k2 (fun e he => hb.1 e he)
+      have hk : k1 = k2 := by
+        by_cases hlt : k1 < k2
+        · have := h k1
+          have hne : ¬ k1 = k2 := by omega
+          have n3 : ProcTable.get tl2 k1 = none :=
+            ProcTable.get_none_of_lt tl2 k1 (fun e he => by have := hb.1 e he; simp only at this; omega)
+          simp [ProcTable.get, hne, n3] at this
+        · by_cases hgt : k2 < k1
+          · have := h k2
+            have hne : ¬ k2 = k1 := by omega
+            have n3 : ProcTable.get tl k2 = none :=
+              ProcTable.get_none_of_lt tl k2 (fun e he => by have := ha.1 e he; simp only at this; omega)
+            simp [ProcTable.get, hne, n3] at this
+          · omega
+      subst hk
+      have hv : v1 = v2 := by
+        have := h k1
+        simpa [ProcTable.get] using this
+      subst hv
+      have htl : tl = tl2 := by
+        refine ih tl2 ha.2 hb.2 (fun q => ?_)
+        by_cases hq : q = k1
+        · subst hq; rw [n1, n2]
+        · have := h q
+          simpa [ProcTable.get, hq] using this
+      rw [htl]
+
+
+theorem ProcTable.get_append_single (a : ProcTable) (k q : Nat) (v : Proc) :
+    ProcTable.get (a ++ [(k, v)]) q
+      = match ProcTable.get a q with
+        | some x => some x
+        | none => if q = k then some v else none := by
+  induction a with
+  | nil => simp [ProcTable.get]
+  | cons hd tl ih =>
+    obtain ⟨k', v'⟩ := hd
+    by_cases h : q = k'
+    · simp [ProcTable.get, h]
+    · simp only [List.cons_append, ProcTable.get, h, if_false]
+      exact ih
+
+/-- the table listing `f q` for `q = lo, lo+1, …, lo+n-1` (those that exist) -/
+def tabulate (f : Nat → Option Proc) (lo n : Nat) : ProcTable :=
+  (List.range n).filterMap fun i => (f (i + lo)).map fun x => (i + lo, x)
+
+theorem tabulate_succ (f : Nat → Option Proc) (lo n : Nat) :
+    tabulate f lo (n + 1) = tabulate f lo n ++ (match f (n + lo) with
+      | some x => [(n + lo, x)]
+      | none => []) := by
+  unfold tabulate
+  rw [List.range_succ, List.filterMap_append]
+  congr 1
+  cases hf : f (n + lo) <;> simp [List.filterMap, hf]
+
+theorem tabulate_get (f : Nat → Option Proc) (lo n q : Nat) :
+    ProcTable.get (tabulate f lo n) q = if lo ≤ q ∧ q < lo + n then f q else none := by
+  induction n with
+  | zero =>
+    have : ¬ (lo ≤ q ∧ q < lo + 0) := by omega
+    rw [if_neg this]
+    simp [tabulate, ProcTable.get]
+  | succ n ih =>
+    rw [tabulate_succ]
+    cases hf : f (n + lo) with
+    | none =>
+      simp only [List.append_nil, ih]
+      by_cases hq : q = n + lo
+      · subst hq
+        have h1 : ¬ (lo ≤ n + lo ∧ n + lo < lo + n) := by omega
+        have h2 : lo ≤ n + lo ∧ n + lo < lo + (n + 1) := by omega
+        rw [if_neg h1, if_pos h2, hf]
+      · have : (lo ≤ q ∧ q < lo + (n + 1)) ↔ (lo ≤ q ∧ q < lo + n) := by omega
+        simp only [this]
+    | some x =>
+      simp only [ProcTable.get_append_single, ih]
+      by_cases hq : q = n + lo
+      · subst hq
+        have h1 : ¬ (lo ≤ n + lo ∧ n + lo < lo + n) := by omega
+        have h2 : lo ≤ n + lo ∧ n + lo < lo + (n + 1) := by omega
+        rw [if_neg h1, if_pos h2, hf]
+        simp
+      · have : (lo ≤ q ∧ q < lo + (n + 1)) ↔ (lo ≤ q ∧ q < lo + n) := by omega
+        simp only [this, hq, if_false]
+        by_cases hr : lo ≤ q ∧ q < lo + n
+        · simp only [hr, and_self, if_true]
+          cases f q <;> rfl
+        · simp [hr]
+
+theorem tabulate_sorted (f : Nat → Option Proc) (lo n : Nat) : (tabulate f lo n).Sorted := by
+  unfold tabulate ProcTable.Sorted
+  refine List.Pairwise.filterMap _ ?_ (List.pairwise_lt_range (n := n))
+  intro a a' haa b hb b' hb'
+  simp only [Option.map_eq_some_iff] at hb hb'
+  obtain ⟨x, _, rfl⟩ := hb
+  obtain ⟨x', _, rfl⟩ := hb'
+  simp only
+  omega
+
+theorem specTable_eq_tabulate (copied : List (String × String)) (h : List (Nat × XOp)) :
+    specTable copied h = tabulate (specProc copied h) 2 (specCount h + 1) := rfl
+
+/-- a state that matches the history IS the Spec's table, as a list -/
+theorem Matches.table_eq {copied : List (String × String)} {s : SysState} {h : List (Nat × XOp)}
+    (m : Matches copied s h) (hs : s.processes.Sorted) : s.processes = specTable copied h := by
+  rw [specTable_eq_tabulate]
+  refine ProcTable.ext_sorted _ _ hs (tabulate_sorted _ _ _) (fun q => ?_)
+  rw [tabulate_get, m.entries q]
+  by_cases hq : 2 ≤ q ∧ q < 2 + (specCount h + 1)
+  · simp [hq]
+  · simp only [hq, if_false]
+    have hno : ¬ (2 ≤ q ∧ q ≤ 2 + specCount h) := by omega
+    cases hsp : specProc copied h q with
+    | none => rfl
+    | some v =>
+      have := (m.pids q).mp (by rw [m.entries q, hsp]; rfl)
+      exact absurd this hno
+
+
 end YashModel.Fork
